@@ -109,6 +109,7 @@ type lockset struct {
 type pubInfo struct {
 	container string // "global:partitionsCache", "compress/zstd.Codec.encoderPool", "chan:<expr>"
 	anyUse    bool   // Pool.Put: the object is no longer ours, any later use counts; otherwise only writes
+	direct    bool   // the name IS the address of the tracked field `container` (v := &x.f): uses are accesses of the field itself
 }
 
 func newLS(fresh bool) *lockset {
@@ -556,6 +557,10 @@ func (w *walker) stmt(s ast.Stmt, ls *lockset) (*lockset, bool) {
 				if k := exprKey(l); k != "" && !strings.Contains(k, ".") {
 					if c, ok := w.sharedPtrField(s.Rhs[i]); ok {
 						ls.pub[k] = pubInfo{container: c, anyUse: false}
+					} else if c, ok := w.addrOfTrackedField(s.Rhs[i]); ok {
+						// v := &x.f — the address of a tracked field in a local: every later use of v (after the
+						// lock was released, say) is an access of x.f with the lockset held THERE
+						ls.pub[k] = pubInfo{container: c, anyUse: true, direct: true}
 					}
 				}
 			}
@@ -2265,9 +2270,17 @@ func (w *walker) publish(arg ast.Expr, container string, anyUse bool, ls *lockse
 }
 
 func (w *walker) pubRow(container string, pos token.Pos, ls *lockset) {
+	w.pubRowD(container, false, pos, ls)
+}
+
+func (w *walker) pubRowD(container string, direct bool, pos token.Pos, ls *lockset) {
 	p := w.x.fset.Position(pos)
 	rel, _ := filepath.Rel(w.x.repo, p.Filename)
-	w.x.rows = append(w.x.rows, &accRow{Field: "pointee:" + container, Write: true, Phase: "published", File: rel, Line: p.Line,
+	field := "pointee:" + container
+	if direct {
+		field = container
+	}
+	w.x.rows = append(w.x.rows, &accRow{Field: field, Write: true, Phase: "published", File: rel, Line: p.Line,
 		Func: w.fname, ls: ls.clone(), owner: w.fn, pos: pos})
 }
 
@@ -2307,7 +2320,7 @@ func (w *walker) pubUse(e ast.Expr, ls *lockset, mode amode) {
 		}
 		write := (mode == mWrite || mode == mAddr) && (through || isField)
 		if info.anyUse || write {
-			w.pubRow(info.container, e.Pos(), ls)
+			w.pubRowD(info.container, info.direct, e.Pos(), ls)
 		}
 	}
 }
@@ -2316,7 +2329,7 @@ func (w *walker) pubUse(e ast.Expr, ls *lockset, mode amode) {
 // the next call (double Put / use after Put across calls)
 func (w *walker) retained(ls *lockset, pos token.Pos) {
 	for k, info := range ls.pub {
-		if info.anyUse && strings.Contains(k, ".") {
+		if info.anyUse && !info.direct && strings.Contains(k, ".") {
 			w.pubRow(info.container, pos, ls)
 		}
 	}
@@ -2492,4 +2505,33 @@ func (x *accExtractor) lockVarPrepass() {
 	for o := range conflict {
 		delete(x.lockVars, o)
 	}
+}
+
+// addrOfTrackedField: e is `&x.f` with f a field of a tracked type whose own type is neither tracked nor sync/atomic
+// (bufio.Reader, writeBuffer, …).  Returns "Owner.f".
+func (w *walker) addrOfTrackedField(e ast.Expr) (string, bool) {
+	u, ok := e.(*ast.UnaryExpr)
+	if !ok || u.Op != token.AND {
+		return "", false
+	}
+	se, ok := u.X.(*ast.SelectorExpr)
+	if !ok {
+		return "", false
+	}
+	sel := w.p.info.Selections[se]
+	if sel == nil || sel.Kind() != types.FieldVal || len(sel.Index()) != 1 {
+		return "", false
+	}
+	owner, tracked := w.trackedStruct(sel.Recv())
+	if !tracked {
+		return "", false
+	}
+	ft := sel.Obj().Type()
+	if _, tr := w.trackedStruct(ft); tr || w.isAtomicNamed(ft) {
+		return "", false
+	}
+	if _, isMu := isMutexType(ft); isMu {
+		return "", false
+	}
+	return owner + "." + sel.Obj().Name(), true
 }
